@@ -88,6 +88,12 @@ func (c *Ctx) effects(rule, closure string) *effectSummary {
 					if cl.Has(l.Root.Fn) {
 						continue
 					}
+					// a closure writing a variable of the function it is nested in: the activation that made the closure
+					// made the variable (the call graph can reach a callback whose enclosing function it does not reach,
+					// because callbacks of one signature are merged)
+					if l.Root.Fn != nil && fn != l.Root.Fn && isNested(fn, l.Root.Fn) && l.Root.Fn.Name() != "init" {
+						continue
+					}
 				}
 				sw := sharedWrite{Fn: fn, W: w, Loc: l}
 				if r := c.exemptWrite(closure, fn, w, l); r != "" {
